@@ -1,8 +1,11 @@
 import SJ.Props.C13
 import SJ.Props.Typed
+import SJ.Props.TypedFaultEq
 #print axioms SJ.Props.C13.c13_read
 #print axioms SJ.Props.C13.c13_read_error_class
 #print axioms SJ.Props.C13.c13_write_prefix
 #print axioms SJ.Props.C13.c13_write_is_prefix
 #print axioms SJ.Props.Typed.c13_typed_fault
 #print axioms SJ.Props.C13.c13_buffers_utf8
+#print axioms SJ.Props.TypedFaultEq.c13_typed_fault_eq
+#print axioms SJ.Props.TypedFaultEq.c13_typed_fault_io
